@@ -652,7 +652,9 @@ def unsafe_key(k, sep, at_root, member=False):
         return True
     if k == "" or "*" in k or k[0] == "&":
         return True
-    special = "\\()[]^$% '\"" + ("." if sep == "dot" else "/")
+    # the guard safe_key of C07_resolves_text_partial (Model/PathBuild.v pb_hard): a back-slash directly before a
+    # back-slash, the separator, ( [ ] blank or a quote; before ) ^ $ % it is harmless (plain text outside brackets)
+    special = "\\([] '\"" + ("." if sep == "dot" else "/")
     for i in range(len(k) - 1):
         if k[i] == "\\" and k[i + 1] in special:
             return True
